@@ -17,6 +17,14 @@ func init() {
 		json.Unmarshal(raw, &d)
 		return c14RoundTrip(d)
 	}
+	replayers["C14/after-directive"] = func(c *Ctx, raw json.RawMessage) string {
+		var cs struct {
+			First int
+			D     Directive
+		}
+		json.Unmarshal(raw, &cs)
+		return c14After([]string{"%5d|", "%-12.3f|", "%+x|", "%#v|", "%08.2f|", "%*d|", "% d|", "%.7s|"}[cs.First], cs.D)
+	}
 	replayers["C14/wrappers"] = func(c *Ctx, raw json.RawMessage) string {
 		var cs struct {
 			D Directive
@@ -130,6 +138,44 @@ func c14RoundTrip(d Directive) string {
 	return ""
 }
 
+// c14After: the state captured for directive d alone equals the state captured when d follows `first`.
+func c14After(first string, d Directive) string {
+	f, stars := d.Format()
+	var pre []interface{}
+	if first == "%*d|" {
+		pre = []interface{}{9, 1}
+	} else if first == "%.7s|" {
+		pre = []interface{}{"s"}
+	} else {
+		pre = []interface{}{1.5}
+		if first == "%5d|" || first == "%+x|" || first == "% d|" {
+			pre = []interface{}{1}
+		}
+	}
+	type runner func(format string, args []interface{})
+	for name, mk := range map[string]func(st *fstate) interface{}{
+		"Formatter":     func(st *fstate) interface{} { return recFormatter{st} },
+		"SafeFormatter": func(st *fstate) interface{} { return recSafeFormatter{st} },
+	} {
+		for _, pn := range []string{"fmt", "redact"} {
+			if pn == "fmt" && name == "SafeFormatter" {
+				continue
+			}
+			var run runner = func(format string, args []interface{}) { fmt.Sprintf(format, args...) }
+			if pn == "redact" {
+				run = func(format string, args []interface{}) { redact.Sprintf(format, args...) }
+			}
+			var alone, after fstate
+			run(f, append(append([]interface{}{}, stars...), mk(&alone)))
+			run(first+f, append(append(append([]interface{}{}, pre...), stars...), mk(&after)))
+			if alone.Called != after.Called || (alone.Called && (alone.key() != after.key() || alone.Fmt != after.Fmt || alone.JustV != after.JustV)) {
+				return fmt.Sprintf("%s/%s: directive %s alone: state %s MakeFormat=%q; after %q: state %s MakeFormat=%q", pn, name, d, alone.key(), alone.Fmt, first, after.key(), after.Fmt)
+			}
+		}
+	}
+	return ""
+}
+
 type fmtStringer struct{ out *string }
 
 func (r fmtStringer) Format(s fmt.State, verb rune) { *r.out = fmt.FormatString(s, verb) }
@@ -198,6 +244,18 @@ func checkC14(c *Ctx) {
 		if i%20011 == 3 {
 			w.Sample(map[string]interface{}{"directive": d.String(), "MakeFormat": st.Fmt, "justV": st.JustV})
 		}
+	})
+	// the state seen by a formatter must not depend on the directive that precedes it in the same format
+	firsts := []string{"%5d|", "%-12.3f|", "%+x|", "%#v|", "%08.2f|", "%*d|", "% d|", "%.7s|"}
+	c.Section("C14/after-directive", map[string]interface{}{"preceding_directives": firsts, "directives": sp.Size(), "printers": "fmt, redact (Formatter and SafeFormatter entry)"}, sp.Size(), func(i int, w *Worker) {
+		d := sp.Get(i)
+		for fi := range firsts {
+			w.Eval()
+			if dt := c14After(firsts[fi], d); dt != "" {
+				w.Fail("after-directive", map[string]interface{}{"First": fi, "D": d}, dt)
+			}
+		}
+		w.Seen(uint64(i))
 	})
 	ws := sp
 	if c.Quick() {
